@@ -6,7 +6,7 @@ from typing import Any, Dict, List, Optional, Set, Tuple
 
 from ..core import AnalysisError, Report
 from ..excflow import GuardFacts, Site, collect_sites, dominating_guards, handler_converts, lexical_handler, make_hierarchy
-from ..pyfacts import Repo, calls, dotted, norm, raise_guards, raised_class, walk_no_nested
+from ..pyfacts import Repo, comprehension_or_loop, expand_private_calls, normalize_counting_whiles, calls, dotted, norm, raise_guards, raised_class, walk_no_nested
 from .c06 import VOCAB, classify_guard, reader_rejected, writer_validated
 
 R = 'flipjump/fjm/fjm_reader.py'
@@ -139,10 +139,10 @@ def rule_bounded(rep: Report, repo: Repo) -> None:
     rep.check(ok, 'C10.BOUNDED', '_init_segments:range(segment_num)', 'each iteration unpacks one exact-size record (a short read raises)',
               f'{R}:{seg.lineno}')
     rd = repo.func(R, 'Reader._read_decompressed_data')
-    comp = [n for n in ast.walk(rd) if isinstance(n, ast.ListComp)]
-    ok = bool(comp) and norm(comp[0].generators[0].iter) == 'range(0, len(file_data), word_bytes_size)'
+    folds = comprehension_or_loop(rd)
+    ok = len(folds) == 1 and norm(folds[0][0]) == 'range(0, len(file_data), word_bytes_size)'
     rep.check(ok, 'C10.BOUNDED', '_read_decompressed_data:words', 'bounded by the bytes actually read', f'{R}:{rd.lineno}')
-    im = repo.func(R, 'Reader._init_memory')
+    im = normalize_counting_whiles(expand_private_calls(repo, R, repo.func(R, 'Reader._init_memory'), 'Reader'))
     for n in ast.walk(im):
         if isinstance(n, ast.For) and 'range(' in norm(n.iter) and norm(n.iter) != 'segments':
             it = norm(n.iter)
@@ -170,7 +170,7 @@ def rule_validate_first(rep: Report, repo: Repo) -> None:
     # ast.walk is breadth first; sort by line
     order = [d for _, d in sorted((c.lineno, dotted(c.func)) for c in ast.walk(init) if isinstance(c, ast.Call) and dotted(c.func).startswith('self._'))]
     rep.check(order == want, 'C10.VALIDATE-FIRST', 'Reader.__init__:order', str(order), f'{R}:{init.lineno}', expected=str(want))
-    im = repo.func(R, 'Reader._init_memory')
+    im = normalize_counting_whiles(expand_private_calls(repo, R, repo.func(R, 'Reader._init_memory'), 'Reader'))
     loop = [n for n in ast.walk(im) if isinstance(n, ast.For) and norm(n.iter) == 'segments'][0]
     first_store = min(n.lineno for n in ast.walk(loop) if isinstance(n, ast.Subscript) and isinstance(n.ctx, ast.Store) and norm(n.value) == 'self.memory')
     last_check = max(t.lineno for t, r, _ in raise_guards(im))
@@ -191,8 +191,8 @@ def rule_torn(rep: Report, repo: Repo) -> None:
                         'unpack(_header_extension_format, fjm_file.read(_header_extension_size))'], 'C10.TORN', 'header:exact-size-unpack',
               str(reads), f'{R}:{rh.lineno}')
     rd = repo.func(R, 'Reader._read_decompressed_data')
-    comp = [n for n in ast.walk(rd) if isinstance(n, ast.ListComp)]
-    elt = norm(comp[0].elt) if comp else ''
+    folds = comprehension_or_loop(rd)
+    elt = norm(folds[0][1]).replace(folds[0][2] or 'i', 'i') if len(folds) == 1 and (folds[0][2] or '').isidentifier() else ''
     rep.check(elt == 'unpack(read_tag, file_data[i:i + word_bytes_size])[0]', 'C10.TORN', 'words:per-slice-unpack', elt, f'{R}:{rd.lineno}',
               expected='each word is unpacked from its own slice, so a partial last word raises')
     no_trunc = not any(isinstance(n, ast.BinOp) and isinstance(n.op, ast.FloorDiv) and 'len(' in norm(n.left) for n in ast.walk(rd))
